@@ -475,6 +475,103 @@ for _t in ('subclass-before-base', 'local-to-module', 'xor-of-list'):
               'declarations' % _t)((lambda t: lambda V: _more(V, t))(_t))
 
 
+# ------------------------------------------------------------------ several forward references inside one generic
+MULTI_FWD = HEAD + 'from typing import Type\n' + '''
+class Holder@@(Schema):
+    m: Dict['Code@@', List['Item@@']] = Field(default_factory=dict)
+    t: Tuple[Optional['Item@@'], Optional['Code@@']] = (None, None)
+    u: Union[Dict['Code@@', 'Item@@'], List['Item@@']] = Field(default_factory=list)
+    h: Dict['Code@@', Type['Handler@@']] = Field(default_factory=dict)
+
+
+def make@@():
+    class Inv(Schema):
+        m: Dict['Code@@', List['Item@@']] = Field(default_factory=dict)
+        t: Tuple[Optional['Item@@'], Optional['Code@@']] = (None, None)
+    return Inv
+
+
+Inv@@ = make@@()
+
+
+class Code@@(str, utype.Rule):
+    max_length = 2
+
+
+class Item@@(Schema):
+    x: int = Field(ge=0, default=0)
+
+
+class Handler@@:
+    pass
+
+
+class Special@@(Handler@@):
+    pass
+'''
+MULTI_DIRECT = HEAD + 'from typing import Type\n' + '''
+class Code@@(str, utype.Rule):
+    max_length = 2
+
+
+class Item@@(Schema):
+    x: int = Field(ge=0, default=0)
+
+
+class Handler@@:
+    pass
+
+
+class Special@@(Handler@@):
+    pass
+
+
+class Holder@@(Schema):
+    m: Dict[Code@@, List[Item@@]] = Field(default_factory=dict)
+    t: Tuple[Optional[Item@@], Optional[Code@@]] = (None, None)
+    u: Union[Dict[Code@@, Item@@], List[Item@@]] = Field(default_factory=list)
+    h: Dict[Code@@, Type[Handler@@]] = Field(default_factory=dict)
+
+
+def make@@():
+    class Inv(Schema):
+        m: Dict[Code@@, List[Item@@]] = Field(default_factory=dict)
+        t: Tuple[Optional[Item@@], Optional[Code@@]] = (None, None)
+    return Inv
+
+
+Inv@@ = make@@()
+'''
+
+
+@ob('multi-reference-generics', marks=['module', 'local'], budget=(100, 400),
+    bounds="one generic naming several later-defined names -- Dict['Code', List['Item']], Tuple[Optional['Item'], Optional['Code']], "
+           "Union[Dict['Code', 'Item'], List['Item']], Dict['Code', Type['Handler']] -- in a module-level class and in a function-local class "
+           '(module-level names); field, key (1-3 chars) and item value (solver int -3..3 / "3" / "x") solver-chosen; two consecutive '
+           'calls; same outcome as the direct declarations')
+def multi_reference_generics(V):
+    with V.notrace():
+        fwd, n1 = load(MULTI_FWD, 'mf')
+        direct, n2 = load(MULTI_DIRECT, 'md')
+    try:
+        cls = V.pick('class', ['Holder', 'Inv'])
+        key = V.pick('key', ['a', 'ab', 'abc'])
+        item = {'x': num(V, 'x', -3, 3)}
+        field = V.pick('field', ['m', 't', 'u-dict', 'u-list', 'h'] if cls == 'Holder' else ['m', 't'])
+        out = []
+        for mod, n in ((fwd, n1), (direct, n2)):
+            d = {'m': {'m': {key: [item]}}, 't': {'t': [item, key]}, 'u-dict': {'u': {key: item}}, 'u-list': {'u': [item]},
+                 'h': {'h': {key: getattr(mod, 'Special%d' % n) if item['x'] != 'x' else int}}}[field]
+            c = getattr(mod, cls + str(n))
+            r = [outcome(c, **d), outcome(c, **d)]
+            out.append([(x[0], repr(x[1:]).replace(mod.__name__, 'M').replace(str(n), '@')) for x in r])
+        V.check(out[0] == out[1], 'forward:differs:multi-reference-generic',
+                lambda: '%s field %s key %r item %r: forward %r ; direct %r' % (cls, field, key, item, out[0], out[1]))
+        V.cover('module' if cls == 'Holder' else 'local')
+    finally:
+        unload(fwd, direct)
+
+
 # ------------------------------------------------------------------ system: premature first call, class factory called twice
 PREMATURE = HEAD + '''
 class Order@@(Schema):
